@@ -501,7 +501,7 @@ def strat_dispatch2d(tier):
         gen.GAMMAS, st.integers(1, 5), st.integers(1, 5), gen.logf(-1, 1), gen.logf(-1, 1), st.booleans(), st.booleans(), side, side, side, side,
         _vals(-2, 2, 1, 11), _vals(-2, 2, 1, 11), _vals(0, 2.5, 1, 11), _vals(-3.2, 3.2, 1, 11),
         st.lists(gen.f(0, 1), min_size=3, max_size=3), st.sampled_from(cases.flux_names(dict(name="euler2d"))),
-        st.one_of(st.none(), gen.f(-180, 180)))
+        st.one_of(st.none(), gen.f(-180, 180))).flatmap(lambda c: st.builds(lambda k: dict(c, k2d=k), st.one_of(st.none(), st.none(), gen.f(-1, 1), st.sampled_from([-1.0, 1.0 / 3.0, 1.0]))))
 
 
 def check_dispatch2d(case):
@@ -511,12 +511,33 @@ def check_dispatch2d(case):
     mesh = cases.build_mesh2d(case)
     n = nx * ny
     idx = np.arange(n)
-    rho = np.exp(np.array(case["lnrho"])[idx % len(case["lnrho"])])
-    p = np.exp(np.array(case["lnp"])[idx % len(case["lnp"])])
-    m = np.array(case["mach"])[idx % len(case["mach"])]
+    hi = case.get("k2d") is not None          # extrapolating reconstruction: the condition applies to the interior FACE state
+    amp = 0.1 if hi else 1.0                   # moderate variations keep extrapolated face states admissible
+    rho = np.exp(amp * np.array(case["lnrho"])[idx % len(case["lnrho"])])
+    p = np.exp(amp * np.array(case["lnp"])[idx % len(case["lnp"])])
+    m = (0.4 if hi else 1.0) * np.array(case["mach"])[idx % len(case["mach"])]
     ang = np.array(case["ang"])[idx % len(case["ang"])]
     c = np.sqrt(g * p / rho)
     V = np.vstack([m * c * np.cos(ang), m * c * np.sin(ang)])
+    num2 = dict(name="extrapol2dk", k=case["k2d"]) if hi else dict(name="extrapol2d1")
+    f = cases.build_field(model, mesh, cases.cons_from_prim(md, [rho, V, p]))
+    nxf = (nx + 1) * ny
+    faces = {"left": np.arange(ny) * (nx + 1), "right": np.arange(ny) * (nx + 1) + nx, "bottom": nxf + np.arange(nx), "top": nxf + ny * nx + np.arange(nx)}
+    face_inner = {}
+    if hi:
+        # interior face states do not depend on the type of a non-periodic side (its boundary difference is zero): first pass with copy conditions
+        bl0 = {}
+        for s_ in ("left", "right", "bottom", "top"):
+            per = case["perx"] if s_ in ("left", "right") else case["pery"]
+            bl0[s_] = {"type": "per"} if per else {"type": "outsup"}
+        d0 = cases.build_disc2d(model, mesh, num2, case["flux"], bl0)
+        d0.rhs(f)
+        for s_ in faces:
+            ins = d0.pR if s_ in ("left", "bottom") else d0.pL
+            face_inner[s_] = [np.array(ins[0][faces[s_]], dtype=float), np.array(ins[1][:, faces[s_]], dtype=float), np.array(ins[2][faces[s_]], dtype=float)]
+            if not (np.all(np.isfinite(face_inner[s_][0])) and np.all(face_inner[s_][0] > 0) and np.all(face_inner[s_][2] > 0)):
+                from vf.runner import Skip
+                raise Skip("inadmissible_reconstruction (extrapolated face state outside the admissible set)")
     # cells adjacent to each side, in the order of the boundary faces
     adj = {"left": np.arange(ny) * nx, "right": np.arange(ny) * nx + nx - 1, "bottom": np.arange(nx), "top": (ny - 1) * nx + np.arange(nx)}
     types = {}
@@ -531,7 +552,7 @@ def check_dispatch2d(case):
             bclist[s_] = {"type": "per"}
             continue
         cells = adj[s_]
-        inner = [rho[cells], V[:, cells], p[cells]]
+        inner = face_inner[s_] if hi else [rho[cells], V[:, cells], p[cells]]
         nrm = np.array([[NORMALS[s_][0]] * len(cells), [NORMALS[s_][1]] * len(cells)])
         if bc == "dirichlet":
             par = dict(prim=[1.3, np.array([[0.2], [-0.1]]), 0.9])
@@ -543,11 +564,8 @@ def check_dispatch2d(case):
                     par["angle"] = case["angle"]
         pars[s_] = par
         bclist[s_] = dict(par, type=bc)
-    disc = cases.build_disc2d(model, mesh, dict(name="extrapol2d1"), case["flux"], bclist)
-    f = cases.build_field(model, mesh, cases.cons_from_prim(md, [rho, V, p]))
+    disc = cases.build_disc2d(model, mesh, num2, case["flux"], bclist)
     disc.rhs(f)
-    nxf = (nx + 1) * ny
-    faces = {"left": np.arange(ny) * (nx + 1), "right": np.arange(ny) * (nx + 1) + nx, "bottom": nxf + np.arange(nx), "top": nxf + ny * nx + np.arange(nx)}
     w = 0.0
     nt = False
     tolc = 1e-12 * (1 + float(np.max(m * m))) / (g - 1)
@@ -557,10 +575,20 @@ def check_dispatch2d(case):
         cells = adj[s_]
         inner_ref = [rho[cells], V[:, cells], p[cells]]
         inner = [np.asarray(inside[0][io], dtype=float), np.asarray(inside[1][:, io], dtype=float), np.asarray(inside[2][io], dtype=float)]
+        if hi:
+            inner_ref = face_inner[s_]
         require(np.allclose(inner[0], inner_ref[0], rtol=tolc, atol=0) and np.allclose(inner[2], inner_ref[2], rtol=tolc, atol=0)
                 and np.all(np.abs(inner[1] - inner_ref[1]) <= tolc * (np.abs(inner_ref[1]) + c[cells])), "dispatch-interior",
-                "interior state on the %s boundary faces is not the adjacent cell" % s_)
+                "interior state on the %s boundary faces is not %s" % (s_, "independent of the boundary type" if hi else "the adjacent cell"))
         state = [np.asarray(outside[0][io], dtype=float), np.asarray(outside[1][:, io], dtype=float), np.asarray(outside[2][io], dtype=float)]
+        if bc == "per" and hi:
+            # the exterior state of a periodic face is the interior face state of the opposite side
+            opp = {"left": "right", "right": "left", "bottom": "top", "top": "bottom"}[s_]
+            ins_o = disc.pR if opp in ("left", "bottom") else disc.pL
+            io_o = faces[opp]
+            require(np.array_equal(state[0], ins_o[0][io_o]) and np.array_equal(state[1], ins_o[1][:, io_o]) and np.array_equal(state[2], ins_o[2][io_o]), "dispatch-periodic",
+                    "exterior state of the periodic %s faces is not the interior face state of the opposite side" % s_)
+            continue
         if bc == "per":
             # the exterior state of a periodic face is the cell on the opposite side
             opp = {"left": "right", "right": "left", "bottom": "top", "top": "bottom"}[s_]
@@ -574,7 +602,7 @@ def check_dispatch2d(case):
         nt = nt or a
         w = max(w, b)
     target(w, "bc-error/tol")
-    return dict(nontrivial=nt or all(t == "per" for t in types.values()) is False, labels=["%s:%s" % (k, v) for k, v in sorted(types.items())] + ["nx=%d" % min(nx, 2), "ny=%d" % min(ny, 2)])
+    return dict(nontrivial=nt or all(t == "per" for t in types.values()) is False, labels=["%s:%s" % (k, v) for k, v in sorted(types.items())] + ["nx=%d" % min(nx, 2), "ny=%d" % min(ny, 2), "highorder" if hi else "firstorder"])
 
 
 SUBCHECKS = [
